@@ -106,6 +106,14 @@ def gen_cases(ctx):
     n = 260 if ctx.tier == "quick" else 4000
     for _ in range(n):
         cases.append(gen_case(rng, ctx.tier))
+    # one file far larger than a reader's block size (Arrow reads CSV in 1 MiB blocks), with line breaks, quotes and
+    # delimiters inside the strings: "for every ... option used consistently on both sides" has no size limit
+    cases.append({"op": "file", "format": "csv", "suffix": "", "encoding": "utf-8", "sep": ",", "header": True, "big": 16000,
+                  "frame": {"n": 3, "cols": [{"name": "a", "kind": "int", "vals": [1, 2, 3]},
+                                              {"name": "b", "kind": "str", "vals": ["first line\nsecond, with comma", 'said "ok"\nmoved on', "plain"]}]}})
+    if ctx.tier == "thorough":
+        for suf in (".gz", ".xz"):
+            cases.append(dict(cases[-1], suffix=suf))
     return cases
 
 
@@ -140,6 +148,15 @@ def reader_history(di, d, ncol):
     os.remove(p)
 
 
+def expanded(case):
+    """the frame of the case; for a `big` case the small frame repeated `big` times, row j tagged with j (distinct rows)"""
+    fr = case["frame"]
+    if case.get("big"):
+        k = case["big"]
+        fr = {"n": fr["n"] * k, "cols": [dict(c, vals=[(f"{v} #{j}" if c["kind"] == "str" else v) for j in range(k) for v in c["vals"]]) for c in fr["cols"]]}
+    return fr
+
+
 def impl(case):
     import dataiter as di
     from harness import warm
@@ -170,7 +187,8 @@ def impl(case):
             except Exception as e:
                 res["err"] = f"{type(e).__name__}: {e}"
         else:
-            df = framegen.build(case["frame"], rid=None)
+            fr = expanded(case)
+            df = framegen.build(fr, rid=None)
             before = framegen.snapshot(df)
             try:
                 if fmt == "pickle":
@@ -248,7 +266,7 @@ def judge(ctx, case, obs, mouts):
             ctx.violation("oracle", f"lod-roundtrip-differs:{cls}", f"list read back {str(back)[:200]} != written {str(exp)[:200]}", case, obs, exp)
         ctx.case_done(case, len(src) >= 2)
         return
-    spec = case["frame"]
+    spec = expanded(case)
     if obs.get("mutated"):
         ctx.violation("oracle", f"{fmt}:mutates", "writing changed the data frame", case, obs)
     names = [c["name"] for c in spec["cols"]]
